@@ -150,7 +150,7 @@ def run(ctx):
     drv, model = E.build(ctx)
     q = ctx.tier == "quick"
     rng = ctx.rng
-    cases = list(CORPUS) + [gen_case(rng) for _ in range(2200 if q else 40000)]
+    cases = list(CORPUS) + [gen_case(rng) for _ in range(1400 if q else 40000)]
     stats = {}
     explore(ctx, drv, model, cases, stats)
     if ctx.broken and not ctx.violations:
